@@ -38,7 +38,9 @@ def points(funcs) -> list[tuple[str, int]]:
 
 
 class PausePoint:
-    def __init__(self, funcs, name: str, line: int, action: Callable[[], None]) -> None:
+    def __init__(self, funcs, name: str, line: int, action: Callable[[], None], skip: int = 0) -> None:
+        """skip: let the line be reached that many times first (a pause inside the n-th turn of a loop)"""
+        self.skip = skip
         self.codes = [c for f in funcs for c in code_objects(f) if c.co_name == name]
         self.name, self.line, self.action = name, line, action
         self.armed = False
@@ -50,6 +52,9 @@ class PausePoint:
             return None
         with self.lock:
             if self.fired:
+                return None
+            if self.skip > 0:
+                self.skip -= 1
                 return None
             self.fired = True
         self.action()
